@@ -275,6 +275,10 @@ func runEntityConc(tw *traceWriter, r *rand.Rand, provider string, g, per int) {
 		for j := 0; j < per; j++ {
 			v := randomValue(r, false)
 			v.S = strings.Repeat(fmt.Sprintf("g%d-%d-", gi, j), 20) // compressible, distinguishable
+			for k := 0; k < 4000; k++ {
+				// a long body: decoding takes long enough for other requests to come in between
+				v.Ls = append(v.Ls, fmt.Sprintf("item-%d-%d-%d", gi, j, k))
+			}
 			items[gi] = append(items[gi], item{v, encodeBody(writeWithEntityWriter(v, "json", false), kind)})
 		}
 	}
@@ -372,7 +376,7 @@ func runEntity(planPath, outPath string, seed int64) {
 	}
 	if p.Random > 0 {
 		for _, prov := range []string{"pool", "cache1", "cache2"} {
-			runEntityConc(tw, r, prov, 8, 12)
+			runEntityConc(tw, r, prov, 16, 10)
 		}
 	}
 	_ = fmt.Sprint
